@@ -119,7 +119,121 @@ pub fn check(prop: &str, tier: Tier, seed: u64, known: &Known) -> CheckResult {
         "C19" => c19::extra_parts(&mut res, tier, seed, known),
         _ => {}
     }
+    // replay tier: saved inputs of repaired defects (regress/<ID>-*.json), strictly, bypassing the generators
+    if let Some(st) = regress_part(prop, known) {
+        res.parts.push(st);
+    }
     res
+}
+
+/// Text-only replay of the metamorphic / table oracles. `None` = this (property, part, detail) has no such form.
+fn relation_replay(prop: &str, part: &str, d: &serde_json::Value) -> Option<Option<String>> {
+    use crate::xp::{expand, Outcome};
+    let items_of = |o: &Outcome| -> Option<Vec<String>> {
+        match o {
+            Outcome::Ok(ts) => {
+                let t: proc_macro2::TokenStream = ts.parse().ok()?;
+                let mut v: Vec<String> = crate::items::split_items(&t).ok()?.into_iter().map(|i| i.text).collect();
+                v.sort();
+                Some(v)
+            }
+            _ => None,
+        }
+    };
+    let same = |a: &Outcome, b: &Outcome| -> bool {
+        match (a, b) {
+            (Outcome::Ok(_), Outcome::Ok(_)) => items_of(a) == items_of(b),
+            (Outcome::Err(x), Outcome::Err(y)) => {
+                let (mut x, mut y) = (x.clone(), y.clone());
+                x.sort();
+                y.sort();
+                x == y
+            }
+            _ => false,
+        }
+    };
+    match (prop, part) {
+        // repeat form vs written-out form; shortcut form vs basic instructions
+        ("C14", _) | ("C12", _) => {
+            let (a, b) = (d["input"].as_str()?, d["written_out"].as_str()?);
+            let (ra, rb) = (expand(a), expand(b));
+            Some(if same(&ra, &rb) { None } else { Some(format!("the two forms expand differently: {} vs {}", ra.short(), rb.short())) })
+        }
+        // two spellings of the same instructions
+        ("C13", _) => {
+            let (a, b) = (d["a_input"].as_str()?, d["b_input"].as_str()?);
+            let (ra, rb) = (expand(a), expand(b));
+            Some(if same(&ra, &rb) { None } else { Some(format!("the two spellings expand differently: {} vs {}", ra.short(), rb.short())) })
+        }
+        // impls for one counterpart with and without the instructions of the others
+        ("C06", _) => {
+            let (a, b, cp) = (d["input"].as_str()?, d["projected"].as_str()?, d["counterpart"].as_str()?);
+            let pick = |o: &Outcome| -> Option<Vec<String>> {
+                match o {
+                    Outcome::Ok(ts) => {
+                        let t: proc_macro2::TokenStream = ts.parse().ok()?;
+                        let mut v: Vec<String> = crate::items::split_items(&t).ok()?.into_iter().filter(|i| i.key().map_or(false, |k| crate::items::nospace(&k.counterpart) == crate::items::nospace(cp))).map(|i| i.text).collect();
+                        v.sort();
+                        Some(v)
+                    }
+                    _ => None,
+                }
+            };
+            let (ra, rb) = (expand(a), expand(b));
+            Some(match (pick(&ra), pick(&rb)) {
+                (Some(x), Some(y)) if x == y => None,
+                _ => Some(format!("impls for {} depend on the other counterparts' instructions: {} vs {}", cp, ra.short(), rb.short())),
+            })
+        }
+        // documented misuse: every expected message is reported
+        ("C15", "faults") => {
+            let input = d["input"].as_str()?;
+            let expected: Vec<String> = d["expected"].as_array()?.iter().flat_map(|e| e["messages"].as_array().cloned().unwrap_or_default()).filter_map(|m| m.as_str().map(|s| s.to_string())).collect();
+            Some(match expand(input) {
+                Outcome::Err(msgs) if expected.iter().all(|e| msgs.iter().any(|m| m.contains(e.as_str()))) => None,
+                Outcome::Ok(_) if expected.is_empty() => None,
+                o => Some(format!("expected diagnostics {:?}, got {}", expected, o.short())),
+            })
+        }
+        // determinism in one process
+        ("C19", "in-process") => {
+            let input = d["input"].as_str()?;
+            let a = expand(input);
+            Some(if (0..4).all(|_| expand(input) == a) { None } else { Some("the same input expanded differently".into()) })
+        }
+        _ => None,
+    }
+}
+
+fn regress_part(prop: &str, known: &Known) -> Option<crate::runner::PartStats> {
+    let dir = format!("{}/regress", crate::verif_root());
+    let mut files: Vec<String> = std::fs::read_dir(&dir).ok()?.filter_map(|e| e.ok()).map(|e| e.file_name().to_string_lossy().to_string()).filter(|n| n.starts_with(&format!("{}-", prop)) && n.ends_with(".json")).collect();
+    if files.is_empty() {
+        return None;
+    }
+    files.sort();
+    let mut st = crate::runner::PartStats { name: "regress".into(), ..Default::default() };
+    st.rule = "Replay tier: every saved input of a defect that was repaired in /repo (regress/<ID>-*.json: shrunk failing inputs as found by the generated parts or by libFuzzer, stored as text) is run again through the property's oracle, strictly (no known finding is tolerated) and without any generator. Non-trivial = every file.".into();
+    for f in files {
+        let path = format!("{}/{}", dir, f);
+        st.evaluations += 1;
+        st.nontrivial_total += 1;
+        st.distinct_nontrivial += 1;
+        st.distinct_total += 1;
+        match replay_file(prop, &path, known, true) {
+            Ok(None) => {
+                if st.samples.len() < 6 {
+                    st.samples.push(serde_json::json!({"file": f}));
+                }
+            }
+            Ok(Some(msg)) => st.violations.push(crate::runner::Violation { replay: path, msg: format!("a repaired defect is back: {}", msg) }),
+            Err(e) => {
+                st.discards += 1;
+                *st.discard_reasons.entry(format!("cannot replay: {}", e.chars().take(60).collect::<String>())).or_default() += 1;
+            }
+        }
+    }
+    Some(st)
 }
 
 /// Re-run a replay file (or a canonical known-finding input). Returns Some(message) when the property fails on it.
@@ -129,9 +243,13 @@ pub fn replay_file(prop: &str, file: &str, known: &Known, strict: bool) -> Resul
     let part = v["part"].as_str().ok_or("replay file has no part")?;
     let tape: Vec<u16> = v["tape"].as_array().ok_or("replay file has no tape")?.iter().map(|x| x.as_u64().unwrap_or(0) as u16).collect();
     let ctx = crate::runner::Ctx { known, strict };
+    // relations between two expansions (and message tables) replay from the stored texts: no generator involved
+    if let Some(r) = relation_replay(prop, part, &v["detail"]) {
+        return Ok(r);
+    }
     for p in parts(prop) {
         if p.name() == part {
-            let rep = match v["case"].as_str().and_then(|c| p.run_text(c, &ctx)) {
+            let rep = match v["case"].as_str().or_else(|| v["detail"]["input"].as_str()).and_then(|c| p.run_text(c, &ctx)) {
                 Some(r) => r,
                 None => p.run_case(&tape, &ctx),
             };
@@ -143,7 +261,20 @@ pub fn replay_file(prop: &str, file: &str, known: &Known, strict: bool) -> Resul
     }
     for p in e2_parts(prop) {
         if p.name() == part {
-            return crate::e2::replay_e2(p.as_ref(), &tape, known, strict);
+            let d = &v["detail"];
+            let stored = match (d["harness"].as_str(), d["run"].as_str(), d["derives"].as_array()) {
+                (Some(h), Some(r), Some(ds)) => Some(crate::e2::E2Case {
+                    harness_src: h.to_string(),
+                    derives: ds.iter().filter_map(|x| x.as_str().map(|s| s.to_string())).collect(),
+                    run_src: r.to_string(),
+                    key: d["key"].as_str().unwrap_or("").to_string(),
+                    labels: vec![],
+                    nontrivial: true,
+                    facts: d["facts"].as_array().map(|a| a.iter().filter_map(|x| x.as_str().map(|s| s.to_string())).collect()).unwrap_or_default(),
+                }),
+                _ => None,
+            };
+            return crate::e2::replay_e2(p.as_ref(), &tape, stored, known, strict);
         }
     }
     // cross-process parts: the stored input text wins over the tape (the tape only reproduces it with the generator it was drawn from)
@@ -156,6 +287,12 @@ fn replay_special(prop: &str, part: &str, tape: &[u16], stored: Option<&str>, kn
     match (prop, part) {
         ("C19", "cross-process") => c19::replay_cross(tape, stored, known, strict),
         ("C18", "backend-diff") => c18::replay(tape, stored, known),
+        // findings of the libFuzzer `text` target: the stored input goes through the same oracle, strictly
+        ("C16", "text") | ("C19", "text") | ("C17", "text") => {
+            let _ = (known, strict);
+            std::env::set_var("VF_FUZZ_STRICT", "1");
+            Ok(stored.and_then(crate::fuzzing::text_oracle).filter(|m| m.starts_with(&format!("property={} ", prop))))
+        }
         _ => Err(format!("no part {} in {}", part, prop)),
     }
 }
